@@ -2,7 +2,10 @@
 
 package simrt
 
-import "runtime"
+import (
+	"runtime"
+	"unsafe"
+)
 
 // RaceEnabled reports whether the binary was built with -race.
 const RaceEnabled = true
@@ -10,3 +13,6 @@ const RaceEnabled = true
 // RaceErrors is the number of data races the detector has reported so far in this
 // process (GORACE must disable report de-duplication for per-case attribution).
 func RaceErrors() int { return runtime.RaceErrors() }
+
+func raceAcquire(p unsafe.Pointer)      { runtime.RaceAcquire(p) }
+func raceReleaseMerge(p unsafe.Pointer) { runtime.RaceReleaseMerge(p) }
